@@ -25,25 +25,40 @@ RULE = ('cases = (values, dt, target_dt, even, entry point) calls of the real fu
         'pairs such as 0.07/0.01, decimal multiples k*u : u for k<=60 and for units 1e-9..1e3, the decimal grid 0.001..0.1 x '
         '0.001..0.3) and random families (quotient = integer*(1 +- 10^-2..10^-13) on the refinement and on the decimation '
         'side, +-1..3 ulp neighbours of exact quotients, exact multiples k<=60, reciprocal steps 1/k with targets m/k, '
-        'log-uniform, dt == target), 30% of them rescaled by 2^j (exact) or 10^u so that dt spans 1e-9..1e3. Lengths from '
+        'log-uniform, dt == target, awkward quotients from gen.awkward_dt: d/(d/k) != k, (d/k)*k != d, in both roles), '
+        '30% of them rescaled by 2^j (exact) or 10^u so that dt spans 1e-9..1e3; awkward counts npts = c*m with '
+        'fl(1/m)*npts not an integer (the decimation grid then runs past the last sample). Lengths from '
         'the shortest record of the quantifier ceil(2*max(dt,target)/dt)+1 (driven on purpose) to +200, odd and even, '
         'around powers of two, divisible and not divisible by the decimation factor, a few past 2**16. Records from the '
-        'shared classes plus ramps, plateau ends, extreme at the first/last sample, sign change at the end; amplitudes '
+        'shared classes plus ramps, plateau ends, extreme at the first/last sample, sign change at the end, one sample '
+        '1e3..1e12 larger than the rest, one-sided, tail-heavy, single changed sample, alternating; amplitudes '
         '1e-12..1e12, large offsets on small signals. Array arguments as float64/float32/int64/int32/int16/int8/uint8/'
         'uint16 (using the whole dtype range), lists/tuples of floats, of ints, mixed, strided and reversed views, '
         'read-only arrays; even as bool, numpy bool and 0/1; positional, keyword and defaulted arguments. The same array '
         'object reused in consecutive calls; histories of calls on one AccSignal (and twins built from the same caller '
         'array) interleaved with cache reads, mutators and regenerations; two same-shape inputs back to back with the first '
-        'result re-read afterwards. Fourier cases: random harmonics up to (and including) the highest index below both '
-        'Nyquist frequencies. distinct = digest(values, dt, target, even, entry point); non-trivial = non-constant record.')
+        'result re-read afterwards; objects derived by the library (results of the resampling calls, deep copies, complex '
+        'records from fas2signal) analysed in turn; consumer gen_response_spectrum with the step taken from T_min/20 and '
+        'from dt/min_dt_ratio, period lists of 1..65 entries with and without a leading 0. Fourier cases: random '
+        'harmonics up to (and including) the highest index below both Nyquist frequencies, and, when refining an '
+        'even-length record, energy exactly at the old Nyquist frequency. distinct = digest(values, dt, target, even, entry point); non-trivial = non-constant record.')
 ASSUMPTIONS = ['finite real input, dt > 0, target_dt > 0, duration (n-1)*dt >= 2*max(dt, target_dt); other calls are '
                'counted, not judged',
                'every call is judged against a copy of its array argument (the signal object\'s values and dt) taken at '
                'call entry; the oracle reads no derived cache of the object (npts, time, spectra)',
                '"subsequence when decimating" = the stride-m samples x[0], x[m], ... optionally followed by the final '
-               'sample x[n-1] (what clamping at the record end produces), values within 1e-9*range',
-               '"band-limited below the new Nyquist frequency" is read as below BOTH Nyquist frequencies (content above '
-               'the old one is not determined by the samples); inputs with content at or above it are counted, not judged',
+               'sample x[n-1] (what clamping at the record end produces); tolerance local to each sample: 16 eps * '
+               '((index+1) * adjacent differences + adjacent magnitudes), valid for any amplitude and dynamic range',
+               '"original samples reappear when refining": all of them for factors >= 2 (factor 1 with even=True may drop '
+               'the last one)',
+               '"band-limited below the new Nyquist frequency": content above the OLD Nyquist frequency is not determined '
+               'by the samples and is out of domain; content exactly AT the old Nyquist frequency of an even-length record '
+               '(alternating component) is read as a cosine and judged whenever the step is refined; inputs with content '
+               'at or above the new Nyquist frequency are counted, not judged',
+               'complex records (fas2signal) are in domain; their range is judged on the real and imaginary parts',
+               'validity of the tolerances: all are relative (step 1e-12, ratio 1e-9, range 1e-12*max|x|, band-limited '
+               '1e-10*max|x| with harmonic index <= 450, or <= 300 for records past 2**16), so they hold for dt 1e-10..1e3 '
+               'and amplitudes 1e-12..1e12; no subnormal records are generated',
                'step rule evaluated with 1e-12 relative slack because the quotient dt/target is itself rounded',
                'even length is asserted for the interpolation variants only (the statement does not claim it for the '
                'Fourier variant; odd Fourier results with even=True are counted as an observation)',
@@ -63,7 +78,9 @@ MIN_EVALS = {
               'fourier.step<=target': 2500, 'fourier.ratio-integer': 2500, 'fourier.bandlimited-exact': 2000,
               'fourier.args-unchanged': 2500, 'interp.via-gen_response_spectrum': 200,
               'purity.reused-array-unchanged': 800, 'purity.caller-array-unchanged': 200, 'history.monitored-call': 800,
-              'state.first-result-intact-after-second-call': 400, 'state.repeat-call-identical': 400},
+              'state.first-result-intact-after-second-call': 400, 'state.repeat-call-identical': 400,
+              'interp.result-owns-data': 12000, 'interp_obj.result-owns-data': 5000, 'fourier.result-owns-data': 5000,
+              'interp_obj.agrees-with-array-level': 2500, 'purity.correcting-the-result-leaves-the-argument': 100},
     'thorough': {'interp.step<=target': 250000, 'interp.ratio-integer': 250000, 'interp.retained-samples': 130000,
                  'interp.subsequence': 110000, 'interp.range': 250000, 'interp.duration<2steps': 250000,
                  'interp.even-length': 120000, 'interp.args-unchanged': 250000,
@@ -73,12 +90,16 @@ MIN_EVALS = {
                  'fourier.args-unchanged': 30000, 'interp.via-gen_response_spectrum': 4000,
                  'purity.reused-array-unchanged': 15000, 'purity.caller-array-unchanged': 4000,
                  'history.monitored-call': 16000, 'state.first-result-intact-after-second-call': 10000,
-                 'state.repeat-call-identical': 10000}}
+                 'state.repeat-call-identical': 10000,
+                 'interp.result-owns-data': 250000, 'interp_obj.result-owns-data': 100000,
+                 'fourier.result-owns-data': 60000, 'interp_obj.agrees-with-array-level': 50000,
+                 'purity.correcting-the-result-leaves-the-argument': 2000}}
 CTX = None
 K6 = 'C14/fourier-decimation-nondivisible'
 K6_ACCEPT_PARITY_TRIM = True   # also accept the FFT grid of len(y)+1 points when even=True (see ASSUMPTIONS / k6_explains)
 VIA = {'consumer': False}
 MAX_ORACLE_N = 300000        # longer Fourier inputs are counted, not judged
+ORACLE_BUDGET = 4e7          # harmonics x output samples the analytic reference may cost per call
 
 
 def n_shards(tier):
@@ -144,6 +165,8 @@ def _domain(ctx, prefix, x, dt, target):
 def _float_copy(snap):
     try:
         x = np.asarray(snap['copy'])
+        if x.dtype.kind not in 'fiuc':     # e.g. object arrays from lists holding Python ints beyond int64: rejected by
+            return None                    # numpy's interp itself, counted as out-of-domain
         x = np.asarray(x, dtype=complex if x.dtype.kind == 'c' else float)
     except Exception:
         return None
@@ -218,6 +241,8 @@ def check_interp(ctx, prefix, fn, snap, dt, target, even, y, new_dt):
         if (dt / (k - 1) if k > 1 else 2.0 * dt) <= target:
             ctx.observe(prefix + 'refine: a coarser admissible step exists (float quotient; allowed by the statement)')
     elif kind == 'decimate':
+        if len(y) > (n - 1) // k + 1:
+            ctx.observe(prefix + 'decimation grid ran past the last sample (awkward count factor*npts)')
         okk, i, allowed = O.subsequence_decimating(x, y, k)
         ctx.check(okk, prefix + 'subsequence', lambda: w(factor=k, first_bad_output_index=i, allowed=allowed),
                   head + ': output index %s is not input sample %s (stride %d)' % (i, None if i is None else i * k, k))
@@ -303,6 +328,10 @@ def check_fourier(ctx, snap, dt, target, even, result):
     if at_old_nyquist:
         ctx.observe(prefix + 'judged with energy exactly at the old Nyquist frequency (cosine reading)')
     skip = 1e-15 * scale
+    n_harm = int(np.count_nonzero(np.sqrt(np.abs(a[:Ks + 1]) ** 2 + np.abs(b[:Ks + 1]) ** 2) > skip))
+    if n_harm * len(y) > ORACLE_BUDGET:
+        ctx.observe(prefix + 'reference too expensive: harmonics x output samples > %g (not judged)' % ORACLE_BUDGET)
+        return True
     tau = np.arange(len(y)) * new_dt / (N * dt)
     exp = O.trig_eval(a, b, Ks, tau, skip)
     err = np.abs(y - exp)
@@ -356,7 +385,7 @@ def _pre_obj(args, kwargs):
     """Snapshot of the object's primary data (values, dt) at call entry - never its derived caches."""
     try:
         asig = _parse(args, kwargs, _OBJ, _DEF)[0]
-        return {'snap': _snapshot(asig.values), 'dt': asig.dt}
+        return {'snap': _snapshot(asig.values), 'dt': asig.dt, 'state': _obj_state(asig)}
     except Exception:
         return None
 
@@ -369,13 +398,29 @@ def _purity_array(ctx, prefix, fn, values, pre, dt, target, even):
 
 
 def _purity_obj(ctx, prefix, fn, asig, pre, target, even):
+    """The signal object keeps its values, its step and every other attribute (compared on vars(): nothing is computed)."""
+    changed = None
     try:
         same = _unchanged(asig.values, pre['snap']) and asig.dt == pre['dt'] and type(asig.dt) is type(pre['dt'])
+        changed = _state_diff(pre['state'], _obj_state(asig))
+        same = same and not changed
     except Exception:
         same = False
     ctx.check(same, prefix + 'args-unchanged',
-              lambda: _wit(fn, pre['snap'], pre['dt'], target, even, values_after=np.asarray(asig.values), dt_after=asig.dt),
-              '%s(target_dt=%r, even=%r) modified the values or the step of the signal object it was given' % (fn, target, even))
+              lambda: _wit(fn, pre['snap'], pre['dt'], target, even, values_after=np.asarray(asig.values), dt_after=asig.dt,
+                           changed_attributes=changed),
+              '%s(target_dt=%r, even=%r) modified the signal object it was given (attributes %s)' % (fn, target, even, changed))
+
+
+def _owns(ctx, prefix, fn, res_values, arg_values, snap, dt, target, even):
+    """The returned record owns its data: it is not (a view of) the argument, also when nothing needed doing."""
+    try:
+        shared = isinstance(res_values, np.ndarray) and isinstance(arg_values, np.ndarray) \
+            and bool(np.shares_memory(res_values, arg_values))
+    except Exception:
+        shared = False
+    ctx.check(not shared, prefix + 'result-owns-data', lambda: _wit(fn, snap, dt, target, even),
+              '%s(dt=%r, target_dt=%r, even=%r): the returned values share memory with the argument' % (fn, dt, target, even))
 
 
 def _post_interp_array(args, kwargs, result, pre):
@@ -389,6 +434,7 @@ def _post_interp_array(args, kwargs, result, pre):
         y, new_dt = result, None
     if check_interp(CTX, 'interp.', 'interp_array_to_approx_dt', pre['snap'], dt, target, even, y, new_dt):
         _purity_array(CTX, 'interp.', 'interp_array_to_approx_dt', values, pre, dt, target, even)
+        _owns(CTX, 'interp.', 'interp_array_to_approx_dt', y, values, pre['snap'], dt, target, even)
 
 
 def _post_interp_obj(args, kwargs, result, pre):
@@ -401,7 +447,28 @@ def _post_interp_obj(args, kwargs, result, pre):
     except Exception:
         y, new_dt = result, None
     if check_interp(CTX, 'interp_obj.', 'interp_to_approx_dt', pre['snap'], pre['dt'], target, even, y, new_dt):
-        _purity_obj(CTX, 'interp_obj.', 'interp_to_approx_dt', asig, pre, target, even)
+        fn = 'interp_to_approx_dt'
+        _purity_obj(CTX, 'interp_obj.', fn, asig, pre, target, even)
+        _owns(CTX, 'interp_obj.', fn, y, getattr(asig, 'values', None), pre['snap'], pre['dt'], target, even)
+        CTX.check(result is not asig, 'interp_obj.result-owns-data', lambda: _wit(fn, pre['snap'], pre['dt'], target, even),
+                  '%s(target_dt=%r, even=%r) returned the argument object itself' % (fn, target, even))
+        # two sites that must agree: the object-level entry point is the array-level one applied to (values, dt)
+        import eqsig
+        try:
+            with attach.paused():
+                ya, dta = eqsig.fns.time_step.interp_array_to_approx_dt(pre['snap']['copy'], pre['dt'], target_dt=target,
+                                                                        even=even)
+            agree = (np.asarray(y).shape == np.asarray(ya).shape and np.asarray(y).tobytes() == np.asarray(ya).tobytes()
+                     and float(new_dt) == float(dta))
+        except Exception:
+            agree = None
+        if agree is not None:
+            CTX.check(agree, 'interp_obj.agrees-with-array-level',
+                      lambda: _wit(fn, pre['snap'], pre['dt'], target, even, got_len=len(y), got_dt=new_dt,
+                                   array_level_len=len(ya), array_level_dt=dta),
+                      '%s(n=%d, dt=%r, target_dt=%r, even=%r) -> (len %d, dt %r) but interp_array_to_approx_dt on the same '
+                      'values gives (len %d, dt %r)' % (fn, len(pre['snap']['copy']), pre['dt'], target, even, len(y), new_dt,
+                                                       len(ya), dta))
 
 
 def _post_resample(args, kwargs, result, pre):
@@ -410,7 +477,22 @@ def _post_resample(args, kwargs, result, pre):
         CTX.observe('fourier.out-of-domain call (not judged)')
         return
     if check_fourier(CTX, pre['snap'], pre['dt'], target, even, result):
-        _purity_obj(CTX, 'fourier.', 'resample_to_approx_dt', asig, pre, target, even)
+        fn = 'resample_to_approx_dt'
+        _purity_obj(CTX, 'fourier.', fn, asig, pre, target, even)
+        _owns(CTX, 'fourier.', fn, getattr(result, 'values', None), getattr(asig, 'values', None), pre['snap'], pre['dt'],
+              target, even)
+        CTX.check(result is not asig, 'fourier.result-owns-data', lambda: _wit(fn, pre['snap'], pre['dt'], target, even),
+                  '%s(target_dt=%r, even=%r) returned the argument object itself' % (fn, target, even))
+        # "follows the same step rule": how often the two variants pick a different admissible step (no verdict)
+        import eqsig
+        try:
+            with attach.paused():
+                dta = eqsig.fns.time_step.interp_array_to_approx_dt(np.zeros(len(pre['snap']['copy'])), pre['dt'],
+                                                                    target_dt=target, even=even)[1]
+            if float(dta) != float(result.dt):
+                CTX.observe('fourier.step differs from the interpolation variant (no verdict)')
+        except Exception:
+            pass
 
 
 def _exc_hook(prefix, fn, objlevel):
@@ -493,8 +575,8 @@ def static_pairs():
 
 
 FAMILIES = ['near-int-refine', 'near-int-decimate', 'ulp-refine', 'ulp-decimate', 'int-multiple', 'reciprocal',
-            'log-uniform', 'equal']
-FAM_P = [0.22, 0.22, 0.05, 0.05, 0.14, 0.14, 0.14, 0.04]
+            'log-uniform', 'equal', 'awkward-quotient']
+FAM_P = [0.19, 0.19, 0.05, 0.05, 0.12, 0.12, 0.12, 0.04, 0.12]
 
 
 def _step_ulps(v, j):
@@ -531,6 +613,24 @@ def random_pair(rng, max_ratio=300.0, rescale=True):
             target = float(10.0 ** rng.uniform(-3, 0))
             if 1.0 / max_ratio <= dt / target <= max_ratio:
                 break
+    elif fam == 'awkward-quotient':
+        # steps d for which d/(d/k) != k, ceil(d/(d/k)) != k or (d/k)*k != d: every int()/floor()/ceil()/round() of the
+        # quotient dt/target, of its reciprocal and of factor*npts sits on such a value
+        k = int(rng.integers(2, 61))
+        d = gen.awkward_dt(rng, k)
+        q = d / k
+        v = int(rng.integers(5))
+        if v == 0:
+            dt, target = d, q                 # refine by "k": dt/target lands next to k
+        elif v == 1:
+            dt, target = q, d                 # decimate by "k": target/dt lands next to k
+        elif v == 2:
+            dt, target = q, q * k             # product instead of the original step
+        elif v == 3:
+            dt, target = q * k, q
+        else:
+            dt, target = d, d * k             # decimation by a float product
+        fam = 'awkward-quotient/%s' % ('refine' if target < dt else 'decimate')
     else:
         target = dt
     if rescale:
@@ -546,6 +646,19 @@ def random_pair(rng, max_ratio=300.0, rescale=True):
 
 
 POW2 = [v for p in range(2, 12) for v in (2 ** p - 1, 2 ** p, 2 ** p + 1)]
+
+
+def awkward_counts(max_m=400, max_c=40):
+    """(m, n, side) with n = c*m a multiple of the decimation factor for which the float product fl(1/m)*n is NOT the
+    integer c: 'above' (ceil gives one sample more: the grid runs past the last sample) or 'below'."""
+    out = []
+    for m in range(2, max_m + 1):
+        f = 1.0 / m
+        for c in range(3, max_c + 1):
+            v = f * (c * m)
+            if v != c:
+                out.append((m, c * m, 'above' if v > c else 'below'))
+    return out
 
 
 def n_min(dt, target):
@@ -580,8 +693,10 @@ def lengths(rng, dt, target, count, span=200):
 
 
 REC_CLS = ['noise', 'walk', 'quake', 'intnoise', 'sine', 'chirp', 'plateau', 'impulse', 'alt', 'zeropad', 'step', 'const',
-           'ramp', 'plateau-ends', 'extreme-first', 'extreme-last', 'sign-change-at-end']
-REC_P = [.18, .10, .10, .08, .05, .05, .05, .04, .04, .04, .03, .02, .06, .04, .04, .04, .04]
+           'ramp', 'plateau-ends', 'extreme-first', 'extreme-last', 'sign-change-at-end', 'spike-dynamic-range',
+           'one-sided', 'tail-heavy', 'single-changed-sample']
+REC_P = np.array([.14, .08, .08, .07, .04, .04, .05, .04, .04, .04, .03, .02, .06, .04, .04, .04, .04, .05, .04, .03, .04])
+REC_P = REC_P / REC_P.sum()
 
 
 def make_record(rng, n, scales=True):
@@ -597,6 +712,22 @@ def make_record(rng, n, scales=True):
     elif cls in ('extreme-first', 'extreme-last'):
         x = rng.normal(size=n)
         x[0 if cls == 'extreme-first' else n - 1] = (np.max(np.abs(x)) + 1.0) * (1.0 if rng.random() < 0.5 else -1.0)
+    elif cls == 'spike-dynamic-range':     # one sample 1e3 .. 1e12 times larger than the steps between the others
+        x = rng.normal(size=n)
+        x[int(rng.integers(n))] = 10.0 ** rng.uniform(3, 12) * (1.0 if rng.random() < 0.5 else -1.0)
+        if rng.random() < 0.3:
+            x[n - 1 if rng.random() < 0.5 else 0] = 10.0 ** rng.uniform(3, 12)
+    elif cls == 'one-sided':               # all the action on one side of zero, zero outside the range of the record
+        x = -(np.abs(rng.normal(size=n)) + float(rng.uniform(0.05, 2.0)))
+        if rng.random() < 0.3:
+            x = -x
+    elif cls == 'tail-heavy':              # all the action in the last 1/k of the record
+        x = np.zeros(n)
+        a = max(1, n // int(rng.integers(3, 12)))
+        x[n - a:] = rng.normal(size=a) * np.linspace(0.2, 1.0, a)
+    elif cls == 'single-changed-sample':
+        x = np.full(n, float(rng.choice([0.0, 1.0, -2.5])))
+        x[int(rng.choice([0, n - 1, int(rng.integers(n))]))] += float(rng.choice([1.0, -1.0, 1e-9]))
     elif cls == 'sign-change-at-end':
         x = np.abs(rng.normal(size=n)) + 0.1
         x[n - 1] = -x[n - 1]
@@ -645,8 +776,8 @@ def make_form(rng, x, form):
     if form == 'list-int':
         s = 1000.0 / (float(np.max(np.abs(x))) or 1.0)
         return [int(round(float(v) * s)) for v in x]
-    if form == 'list-mixed':
-        return [(int(round(float(v))) if i % 2 else float(v)) for i, v in enumerate(x)]
+    if form == 'list-mixed':       # Python ints stay inside int64 (beyond it numpy builds an object array and refuses)
+        return [(int(round(float(v))) if (i % 2 and abs(v) < 2.0 ** 62) else float(v)) for i, v in enumerate(x)]
     if form in ('view-stride2', 'readonly-view'):
         buf = np.empty(2 * n)
         buf[::2] = x
@@ -765,8 +896,20 @@ def drive_interp(eqsig, ctx, rng, dt, target, fam, n, even, c, form=None):
             return
         VIA['consumer'] = True
         try:
-            _swallow(asig.gen_response_spectrum, response_times=np.array([20.0 * target, 40.0 * target + 0.1 * dt / 0.01]),
-                     min_dt_ratio=1000.0)
+            r = rng.random()
+            if r < 0.5:
+                # the step comes from the shortest period: target = T_min / 20
+                rt = np.array([20.0 * target, 40.0 * target + 0.1 * dt / 0.01])
+                if r < 0.2:     # period lists of 1, 2, .. 65 entries, optionally led by T = 0
+                    m = int(rng.choice([1, 2, 3, 31, 32, 33, 64, 65]))
+                    rt = 20.0 * target * (1.0 + np.arange(m) * 0.37)
+                    if rng.random() < 0.4:
+                        rt = np.concatenate([[0.0], rt])
+                _swallow(asig.gen_response_spectrum, response_times=rt, min_dt_ratio=1000.0)
+            else:
+                # the step comes from the ratio: target = dt / min_dt_ratio (quotient dt / (dt / k) recovered by ceil)
+                k = [2, 3, 5, 6, 7, 9, 10, 11, 12][int(rng.integers(9))] if r < 0.9 else float(rng.uniform(1.5, 12.0))
+                _swallow(asig.gen_response_spectrum, response_times=np.array([dt * 1.5, dt * 40.0]), min_dt_ratio=k)
         finally:
             VIA['consumer'] = False
 
@@ -824,6 +967,20 @@ def pilot_step(eqsig, N, dt, target, even):
 
 def synth_for(eqsig, rng, N, dt, target, even, kmode=None, scales=True, kcap=None):
     new_dt = pilot_step(eqsig, N, dt, target, even)
+    if kmode is None and N % 2 == 0 and N >= 4 and new_dt < dt * (1 - 1e-6) and kcap is None and rng.random() < 0.25:
+        kmode = 'nyquist'
+    if kmode == 'nyquist':
+        # even-length record, refinement: harmonics below N/2 plus c*cos(2 pi (N/2) t/P) = c*(-1)^n at the samples -
+        # energy exactly at the OLD Nyquist frequency, which lies below the NEW one
+        x, a, b, K = synth_bandlimited(rng, N, max(N // 2 - 1, 0), ['top', 'low', 'const'][int(rng.integers(3))], scales)
+        sc0 = float(np.max(np.abs(x))) or 1.0
+        c = sc0 * float(rng.choice([1.0, -0.5, 1e-3, 3.0]))
+        x = x + c * (-1.0) ** np.arange(N)
+        A, B, nyq = O.harmonics(x)
+        sc = float(np.max(np.abs(x)))
+        if not (abs(nyq - c) <= 1e-11 * sc and O.band_index(A, B, nyq, sc) == N // 2):
+            raise AssertionError('C14 oracle self-check failed: alternating component not recovered (N=%d)' % N)
+        return x, N // 2, N // 2, kmode
     lim = min(N / 2.0, N * dt / (2.0 * new_dt) * (1 - 1e-9))
     Kmax = int(np.ceil(lim)) - 1
     if kcap is not None:            # very long records: keep k*t/P exact to ~1e-13 in the analytic reference
@@ -845,7 +1002,7 @@ def drive_fourier(eqsig, ctx, rng, dt, target, fam, N, even, kmode=None, kcap=No
     x, K, Kmax, kmode = synth_for(eqsig, rng, N, dt, target, even, kmode, kcap=kcap)
     form = None
     vals = x
-    r = rng.random()
+    r = rng.random() if kcap is None else 1.0        # very long records stay float64 (few harmonics: cheap reference)
     if r < 0.06:
         form = ['list', 'tuple', 'view-stride2', 'view-reversed', 'readonly'][int(rng.integers(5))]
         vals = make_form(rng, x, form)                   # same float64 numbers: still band-limited
@@ -923,9 +1080,9 @@ def drive_history(eqsig, ctx, rng):
     ctx.case(core.digest(x, dt, 'history'), nontrivial=True, cls='history',
              sample={'fn': 'history on one AccSignal + twins', 'n': N, 'dt': dt, 'head': x[:6]})
     ops = ['interp', 'resample', 'interp', 'resample', 'spectrum', 'read', 'read', 'reset-same', 'reset-shorter',
-           'reset-longer', 'mutate', 'regen']
-    for step in range(int(rng.integers(6, 14))):
-        o = objs[0] if rng.random() < 0.6 else objs[int(rng.integers(1, 3))]
+           'reset-longer', 'mutate', 'regen', 'chain-interp', 'chain-resample', 'deepcopy-mutate', 'fas2signal']
+    for step in range(int(rng.integers(6, 16))):
+        o = objs[0] if rng.random() < 0.45 else objs[int(rng.integers(1, len(objs)))]
         op = ops[int(rng.integers(len(ops)))]
         try:
             n_now = len(o.values)
@@ -939,6 +1096,40 @@ def drive_history(eqsig, ctx, rng):
         elif op == 'resample':
             call_obj(eqsig.resample_to_approx_dt, rng, o, _targets_for(rng, dt_now, n_now), even)
             ctx.ok('history.monitored-call')
+        elif op in ('chain-interp', 'chain-resample'):
+            # objects derived by the library itself from an analysed ("warm") object are analysed in turn; correcting the
+            # derived object in place must leave the object it was derived from alone
+            f = eqsig.interp_to_approx_dt if op == 'chain-interp' else eqsig.resample_to_approx_dt
+            before = _snapshot(o.values)
+            r = call_obj(f, rng, o, _targets_for(rng, dt_now, n_now), even)
+            ctx.ok('history.monitored-call')
+            try:
+                ok_len = r is not None and 24 <= len(r.values) <= 1500
+            except Exception:
+                ok_len = False
+            if ok_len:
+                if rng.random() < 0.5 and isinstance(r.values, np.ndarray) and r.values.flags.writeable:
+                    r.values[:] = r.values * 0.5 + 1.0              # in-place correction of the derived object
+                    ctx.check(_unchanged(o.values, before), 'purity.correcting-the-result-leaves-the-argument',
+                              lambda: _wit(op, before, dt_now, dt_now, even, values_after=np.asarray(o.values)),
+                              'changing the values of the object returned by %s in place changed the argument object' % op)
+                if len(objs) < 7:
+                    objs.append(r)
+        elif op == 'deepcopy-mutate':
+            o2 = copy.deepcopy(o)
+            _swallow(o2.add_constant, float(rng.normal()))
+            if rng.random() < 0.5:
+                _swallow(o2.reset_values, make_record(rng, max(24, n_now - int(rng.integers(0, 9))))[0])
+            if len(objs) < 7:
+                objs.append(o2)
+        elif op == 'fas2signal':
+            # complex-valued records as the library's own fas2signal produces them
+            fas = _swallow(lambda: o.fa_spectrum)
+            o2 = None if fas is None or len(fas) < 13 or len(fas) > 800 else \
+                _swallow(eqsig.fas2signal, fas, dt_now, stype='acc')
+            if o2 is not None and len(objs) < 7:
+                objs.append(o2)
+                ctx.observe('history: complex record from fas2signal added')
         elif op == 'spectrum':
             VIA['consumer'] = True
             try:
@@ -1066,6 +1257,15 @@ def run_shard(ctx):
         even = bool(rng.random() < 0.5)
         c += 1
         drive_interp(eqsig, ctx, rng, dt, target, fam, n, even, c)
+    # awkward counts: npts a multiple of the decimation factor m for which fl(1/m)*npts is not an integer
+    awk = awkward_counts()
+    sel = [awk[int(v)] for v in rng.choice(len(awk), size=(24 if quick else 400), replace=False)]
+    sel += [t for t in awk if t[2] == 'above'][ctx.shard::ctx.nshards][:(12 if quick else 200)]
+    for (m, n, side) in sel:
+        dt = [2.0 ** -7, 0.01, 0.005, 1.0 / 93, 2.0 ** -9, 0.004][int(rng.integers(6))]
+        for even in (True, False):
+            c += 1
+            drive_interp(eqsig, ctx, rng, dt, dt * m, 'awkward-count-' + side, n, even, c)
     # every container / dtype / layout form at least a few times per shard, array- and object-level
     for form in FORMS:
         for r in range(3 if quick else 30):
